@@ -174,6 +174,12 @@ class Types:
                             c = self.class_of(arg, cat.eng, timer_func=ent.func.qual)
                             if c:
                                 self.param_cls.setdefault((tgt[2].qual, q), set()).update(c)
+                    if isinstance(tgt, tuple) and tgt[0] == "func":
+                        # a module-level function armed through functools.partial: its parameters, positionally
+                        for q, arg in zip(list(tgt[1].params), extra + tuple(e.a["args"])):
+                            c = self.class_of(arg, cat.eng, timer_func=ent.func.qual)
+                            if c:
+                                self.param_cls.setdefault((tgt[1].qual, q), set()).update(c)
                     if isinstance(tgt, tuple) and tgt[0] == "closure":
                         # what the closure captured, as it was when the closure was made (seen from the function that made it)
                         env, _, fi = cat.eng._closure_env[tgt[2]]
